@@ -1,18 +1,26 @@
 (* Executable model of pyrtl.Simulation (pyrtl/simulation.py):
    _initialize, step, _execute, _mem_update, _sanitize.
-   Values are Python ints (Z); every destination is masked with
-   `val & bitmask`.  The op table comes from Gen/SimOps.v, which is
-   regenerated from Simulation.simple_func on every run. *)
+   Values are Python ints (Z).  Everything that computes a value is
+   REGENERATED from the current source on every run:
+     Gen/SimOps.v   simple_func (the 13 lambdas)                 [py/gen_coq.py]
+     Gen/SimExec.v  _sanitize and WireVector.bitmask, the loop bodies, initial
+                    values and iteration orders of the 'c' and 's' arms of
+                    _execute, the dict lookup of the 'm' arm, the condition /
+                    address / data of _mem_update, the register capture of
+                    step                                         [py/genfrag_C01.py]
+   What is written here by hand is the plumbing between them (which the same
+   plug-in checks against the shape of _execute / step / _initialize, aborting
+   the translation when the dispatch or the order of the phases changes). *)
 From PyRTL Require Export Netlist.Sem.
-From PyRTL Require Export Gen.SimOps.
+From PyRTL Require Export Gen.SimOps Gen.SimExec.
 
-(* _execute, op 'c':   result = (result << len(arg)) | value[arg]   *)
+(* _execute, op 'c':   result = 0; for arg in net.args: <sx_concat_step>   *)
 Definition sim_concat (args : list (Z * Z)) : Z :=
-  fold_left (fun r vw => Z.lor (Z.shiftl r (snd vw)) (fst vw)) args 0.
+  fold_left sx_concat_step (sx_concat_order args) sx_concat_init.
 
-(* _execute, op 's':   for b in op_param[::-1]: result = (result << 1) | (1 & (source >> b)) *)
+(* _execute, op 's':   result = 0; for b in op_param[::-1]: <sx_select_step source> *)
 Definition sim_select (src : Z) (idx : list Z) : Z :=
-  fold_left (fun r b => Z.lor (Z.shiftl r 1) (Z.land 1 (Z.shiftr src b))) (rev idx) 0.
+  fold_left (sx_select_step src) (sx_select_order idx) sx_select_init.
 
 Record sstate := mkS {
   value : wid -> Z;                 (* Simulation.value *)
@@ -28,36 +36,39 @@ Definition sim_mem_read (mv : Z -> list (Z * Z)) (m a : Z) : Z :=
   match find_mem (mems nl) m with
   | Some mm => match mrom mm with
                | Some data => rom_read data a            (* RomBlock._get_read_data *)
-               | None => assoc_d (mv m) a dflt           (* memvalue[memid].get(addr, default) *)
+               | None => sx_mem_get (mv m) a dflt        (* memvalue[memid].get(addr, default) *)
                end
-  | None => assoc_d (mv m) a dflt
+  | None => sx_mem_get (mv m) a dflt
   end.
 
 Definition execute (mv : Z -> list (Z * Z)) (v : wid -> Z) (n : net) : wid -> Z :=
   let wd := width_of nl (ndest n) in
   match nop n with
   | OpReg | OpMemWr _ => v
-  | OpConcat => upd v (ndest n) (sanitize (sim_concat (argvals nl v n)) wd)
-  | OpSelect idx => upd v (ndest n) (sanitize (sim_select (v (arg n 0)) idx) wd)
-  | OpMemRd m => upd v (ndest n) (sanitize (sim_mem_read mv m (v (arg n 0))) wd)
+  | OpConcat => upd v (ndest n) (sx_sanitize (sim_concat (argvals nl v n)) wd)
+  | OpSelect idx => upd v (ndest n) (sx_sanitize (sim_select (v (arg n sx_select_src_arg)) idx) wd)
+  | OpMemRd m => upd v (ndest n) (sx_sanitize (sim_mem_read mv m (v (arg n sx_mem_read_addr_arg))) wd)
   | o => match simple_func o (map v (nargs n)) with
-         | Some r => upd v (ndest n) (sanitize r wd)
+         | Some r => upd v (ndest n) (sx_sanitize r wd)
          | None => v
          end
   end.
 
-(* _mem_update *)
+(* _mem_update: `if <cond>: memvalue[memid][<addr>] = <data>`, the three read off the source as
+   functions of the values of args[0], args[1], args[2] *)
 Definition mem_update (v : wid -> Z) (mv : Z -> list (Z * Z)) (n : net) : Z -> list (Z * Z) :=
   match nop n with
   | OpMemWr m =>
-      if v (arg n 2) =? 0 then mv
-      else upd mv m (dict_set (mv m) (v (arg n 0)) (v (arg n 1)))
+      let a0 := v (arg n 0) in let a1 := v (arg n 1) in let a2 := v (arg n 2) in
+      if sx_mem_write_cond a0 a1 a2
+      then upd mv m (dict_set (mv m) (sx_mem_write_addr a0 a1 a2) (sx_mem_write_data a0 a1 a2))
+      else mv
   | _ => mv
   end.
 
 Definition reg_update (v : wid -> Z) (rv : wid -> Z) (n : net) : wid -> Z :=
   match nop n with
-  | OpReg => upd rv (ndest n) (sanitize (v (arg n 0)) (width_of nl (ndest n)))
+  | OpReg => upd rv (ndest n) (sx_reg_capture (v (arg n 0)) (width_of nl (ndest n)))
   | _ => rv
   end.
 
@@ -66,6 +77,9 @@ Definition is_input (w : wid) : bool :=
 Definition is_reg (w : wid) : bool :=
   match kind_of nl w with KReg _ => true | _ => false end.
 
+(* step.  The order of the phases -- inputs, value.update(regvalue), nets in order, memory
+   writes, trace, register capture -- is the one py/genfrag_C01.py finds in the source; the
+   translation aborts (and Gen/SimExec.v stops compiling) when it is any other. *)
 Definition sim_step (st : sstate) (ins : wid -> Z) : (wid -> Z) * sstate :=
   let v1 := fun w => if is_input w then ins w else value st w in
   let v2 := fun w => if is_reg w then regvalue st w else v1 w in     (* value.update(regvalue) *)
